@@ -74,7 +74,7 @@ def space(tier, seed):
                     items.append({"part": "battery", "cfg": cfg, "soc": soc, "v": v, "period": period, "L": b["L"], "D": b["noise_deviations"]})
     # (b) simulation cells: reuse the ledger scenario space on the heterogeneous network
     for scn in c02.space("quick", seed):
-        if scn["net"] != "N2" or scn["sk"] not in ("max1", "alt", "unc", "fcfs"):
+        if scn.get("block") or scn["net"] != "N2" or scn["sk"] not in ("max1", "alt", "unc", "fcfs"):
             continue
         if tier == "quick" and (scn["period"] == 5 or len(scn["sessions"]) > 2):
             continue
